@@ -235,11 +235,16 @@ def check(props, pid, tier, seed, no_bounded=False):
     static_failed = []
     if plan.static is not None:
         try:
-            for oid, ok, detail in plan.static(REPO):
+            for item in plan.static(REPO):
+                oid, ok, detail = item[:3]
+                argument_only = len(item) > 3 and item[3] == 'argument'      # a premise of the deductive argument, not the property itself
                 n_ob += 1
                 backends['ast-static'] = backends.get('ast-static', 0) + 1
                 if ok:
                     n_dis += 1
+                elif argument_only:
+                    undecided.append(dict(fid=oid, reason='a premise of the deductive argument no longer holds (the property itself is decided by the bounded part)',
+                                          detail=str(detail)[:300]))
                 else:
                     static_failed.append((oid, detail))
         except Exception:
